@@ -72,6 +72,17 @@ pub fn near_miss_table() -> Vec<(&'static str, Reason)> {
         ("$[9223372036854775808]", Reason::IntRange),
         ("$[?@[9007199254740992] == 1]", Reason::IntRange),
         ("$[?@[-9223372036854775808] == 1]", Reason::IntRange),
+        ("$[-9223372036854775808]", Reason::IntRange),
+        ("$[:-9223372036854775808]", Reason::IntRange),
+        ("$[::-9223372036854775808]", Reason::IntRange),
+        ("$..[-9223372036854775808]", Reason::IntRange),
+        ("$[9223372036854775807]", Reason::IntRange),
+        ("$['a\\\\']. b", Reason::BlankNotAllowed),
+        ("$['\\\\'].. *", Reason::BlankNotAllowed),
+        ("$[?@.a == 'x\\\\']. b", Reason::BlankNotAllowed),
+        ("$[?@['\\\\']. b == 1]", Reason::BlankNotAllowed),
+        ("$[?@.k == \"\\\\\" && @. b == 1]", Reason::BlankNotAllowed),
+        ("$[\"a\\\\\"] . b", Reason::BlankNotAllowed),
         ("$['a\u{1}b']", Reason::ControlChar),
         ("$['a\tb']", Reason::ControlChar),
         ("$[\"a\nb\"]", Reason::ControlChar),
@@ -196,6 +207,34 @@ pub fn run(ctx: &Ctx, reject_mode: bool) -> Result<Evidence, String> {
         }
     }
     corpus.extend(mutants);
+    let mut deep: Vec<String> = vec![];
+    // deep (but valid) nestings of every shape, and long flat queries, several copies each so
+    // that they are parsed concurrently with short ones
+    for d in 1..=7usize {
+        let mut m = String::from("match(@.a,'x')");
+        let mut c = String::from("count(@.*) > 0");
+        let mut v = String::from("@.a");
+        let mut l = String::from("length(@.a) == 1");
+        for _ in 0..d {
+            m = format!("match(value(@.a[?{}]),'x')", m);
+            c = format!("count(@[?{}]) > 0", c);
+            v = format!("@[?{}]", v);
+            l = format!("length(value(@[?{}])) == 1", l);
+        }
+        for q in [format!("$[?{}]", m), format!("$[?{}]", c), format!("$[?{}]", v), format!("$[?{}]", l), format!("$[?{}{}{}]", "(".repeat(d * 3), "@.a", ")".repeat(d * 3)), format!("$[?{}@.a{}]", "!(".repeat(d * 2), ")".repeat(d * 2))] {
+            for _ in 0..4 {
+                deep.push(q.clone());
+            }
+        }
+    }
+    for n in [50usize, 100, 200, 400, 800] {
+        for q in [format!("${}", ".abc".repeat(n)), format!("${}", "['x y']".repeat(n)), format!("$[{}0]", "0,".repeat(n)), format!("$[?{}@.a]", "@.a||".repeat(n)), format!("$[?@.a == '{}']", "s".repeat(n * 4))] {
+            for _ in 0..6 {
+                deep.push(q.clone());
+            }
+        }
+    }
+    corpus.extend(deep);
     let n_corpus = corpus.len();
     let probe_doc = Doc::from_value(serde_json::json!({"a": [1, {"b": 2}], "b": "x"}));
     let total = n_gen + n_flt + n_corpus;
